@@ -99,6 +99,65 @@ def prepare_module(mod, steps):
     return {"dir": d, "cm": cm, "gen": gen, "problems": probs}
 
 
+DIALECTS = {
+    "dart": {"backend": "dart", "extra": [], "front": "dartfront",
+             "dialect": {"name": "dart", "mod": "md", "flag": "isOk", "slice": ("_data", "_length"), "prefix": "c07d", "tags": ["C07"]},
+             # known crash of the Dart back end (unreachable!() for Option<slice> parameters): kept out of the profile
+             "pred": lambda m: not any(isinstance(t, bridgegen.Callback) or bridgegen.any_type(t, lambda x: isinstance(x, bridgegen.Opt) and isinstance(x.inner, (bridgegen.Slice, bridgegen.Str))) or isinstance(t, bridgegen.StrSlice)
+                                       for _, t in m.params)},
+    "kotlin": {"backend": "kotlin", "extra": ["--config", "kotlin.domain=dev.verif", "--config", "lib_name=bridge"], "front": "kotlinfront",
+               "dialect": {"name": "kotlin", "mod": "mk", "flag": "isOk", "slice": ("data", "len"), "prefix": "c07k", "tags": ["C07"]},
+               # Option<slice> parameters hit an unreachable!() in kotlin/mod.rs::gen_native_type_name (a C15 matter): kept out of the profile
+               "pred": lambda m: not any(isinstance(t, (bridgegen.Callback, bridgegen.StrSlice)) or bridgegen.any_type(t, lambda x: isinstance(x, bridgegen.Opt) and isinstance(x.inner, (bridgegen.Slice, bridgegen.Str)))
+                                         for _, t in m.params)},
+}
+
+
+def prepare_dialect(mod, which):
+    """Fit `mod` to the back end's feature profile, generate its bindings, parse the native
+    declarations into a CModel and generate harnesses against it."""
+    spec = DIALECTS[which]
+    cur = bridgegen.filtered(mod, method_pred=spec["pred"], suffix="_" + which)
+    d = os.path.join(GEN_ROOT, cur.name)
+    fitted_out = []
+    for attempt in range(6):
+        shutil.rmtree(d, ignore_errors=True)
+        os.makedirs(os.path.join(d, "src"))
+        with open(os.path.join(d, "Cargo.toml"), "w") as fh:
+            fh.write(CARGO_TOML % (cur.name, REPO, REPO))
+        shutil.copyfile(os.path.join(REPO, "Cargo.lock"), os.path.join(d, "Cargo.lock"))
+        shutil.copyfile(os.path.join(VERIF, "harness", "bridge_support", "vsupport.rs"), os.path.join(d, "src", "vsupport.rs"))
+        lib = os.path.join(d, "src", "lib.rs")
+        with open(lib, "w") as fh:
+            fh.write(cur.emit_lib())
+        ok, out = run_tool(spec["backend"], lib, os.path.join(d, which), spec["extra"])
+        if ok:
+            break
+        dm = set(re.findall(r"Lowering error in (\w+)::(\w+):", out))
+        dt = set(re.findall(r"Lowering error in (\w+):(?!:)", out))
+        if not dm and not dt:
+            raise RuntimeError("diplomat-tool %s crashed on generated module %s: %s" % (which, cur.name, out[-1200:]))
+        fitted_out += sorted("%s::%s" % x for x in dm) + sorted(dt)
+        name = cur.name
+        cur = bridgegen.filtered(cur, drop_methods=dm, drop_types=dt)
+        cur.name = name
+    else:
+        raise RuntimeError("could not fit module %s to the %s profile" % (mod.name, which))
+    front = __import__(spec["front"])
+    cm, probs = front.load(os.path.join(d, which))
+    mism = [x for x in probs if x.startswith("MISMATCH")]
+    probs = [x for x in probs if not x.startswith("MISMATCH")]
+    if probs:
+        raise RuntimeError("%s front end did not recognise everything in the bindings of %s: %s" % (which, cur.name, probs[:5]))
+    cm.dialect = spec["dialect"]
+    gen = hgen_c.generate_dialect(cur, cm)
+    for x in mism:
+        gen["static"].append((re.sub(r"\W+", "_", x)[:60], x[len("MISMATCH "):], ["C07"]))
+    with open(lib, "w") as fh:
+        fh.write(cur.emit_lib(harness_text=gen["text"], mirror_text=gen["mirror"], mirror_mod=spec["dialect"]["mod"]))
+    return {"dir": d, "cm": cm, "gen": gen, "problems": probs, "mod": cur, "fitted_out": fitted_out}
+
+
 def static_replay_text(mod, prep, subject, message):
     cm = prep["cm"]
     lines = ["STATIC DISAGREEMENT between the Rust bridge module and the generated C header", "",
@@ -114,8 +173,111 @@ def static_replay_text(mod, prep, subject, message):
     return "\n".join(lines)
 
 
+def validate_fronts():
+    """Translator validation: the Dart/Kotlin front ends must recognise every declaration in the
+    repository's own checked-in outputs."""
+    import dartfront
+    import kotlinfront
+    probs = []
+    n = 0
+    for d in ("feature_tests/dart/lib/src", "example/dart/lib/src"):
+        pth = os.path.join(REPO, d)
+        if os.path.isdir(pth):
+            m, pr = dartfront.load(pth)
+            probs += ["dart front end on %s: %s" % (d, x) for x in pr]
+            n += len(m.functions) + len(m.structs)
+    for d in ("feature_tests/kotlin", "example/kotlin"):
+        pth = os.path.join(REPO, d)
+        if os.path.isdir(pth):
+            m, pr = kotlinfront.load(pth)
+            # callback / trait runner classes are outside the module family
+            pr = [x for x in pr if not re.search(r"Runner_|tag-Callback|DiplomatCallback|DiplomatTrait", x)]
+            probs += ["kotlin front end on %s: %s" % (d, x) for x in pr]
+            n += len(m.functions) + len(m.structs)
+    return n, probs
+
+
+def run_dialects(prop):
+    out = {"results": [], "crate_of": {}, "inconclusive": [], "violations": [], "known": [], "coverage": {}}
+    mods = modules_for(tier(), seed())
+    replay_dir = os.path.join(VERIF, "replays", prop)
+    programs = []
+    n_static = 0
+    ncorpus, probs = validate_fronts()
+    out["inconclusive"] += probs
+    for mod in mods:
+        if mod.name == "m0_callbacks":
+            continue
+        for which in ("dart", "kotlin"):
+            try:
+                prep = prepare_dialect(mod, which)
+            except RuntimeError as e:
+                msg = str(e)
+                if "MISMATCH" in msg:
+                    out["violations"].append(("static:%s:%s" % (mod.name, which), "", msg))
+                else:
+                    out["inconclusive"].append(msg)
+                continue
+            gen = prep["gen"]
+            wanted = sorted(gen["harnesses"])
+            for subject, message, tags in gen["static"]:
+                n_static += 1
+                os.makedirs(replay_dir, exist_ok=True)
+                path = os.path.join(replay_dir, "static_%s_%s_%s.txt" % (mod.name, which, re.sub(r"\W+", "_", subject)))
+                with open(path, "w") as fh:
+                    fh.write("STATIC DISAGREEMENT between the Rust bridge module and the generated %s bindings\n\nmodule: %s (%s)\nsubject: %s\nfinding: %s\n"
+                             "\nReproduce: run diplomat-tool %s on %s/src/lib.rs and compare the native declaration of the subject with the Rust signature.\n"
+                             % (which, prep["mod"].name, prep["dir"], subject, message, which, prep["dir"]))
+                out["violations"].append(("static:%s:%s:%s" % (mod.name, which, subject), path, message))
+            programs.append({"module": prep["mod"].name, "backend": which, "methods": len(prep["mod"].methods), "native_functions": len(prep["cm"].functions),
+                             "native_structs": len(prep["cm"].structs), "harnesses": len(wanted), "dropped_by_profile": len(prep["fitted_out"]),
+                             "skipped": prep["gen"]["skipped"]})
+            if not wanted:
+                continue
+            ht = 1800 if tier() == "thorough" else 600
+            res, tools, log_, ok, wall = kani_run(prep["dir"], "bridge", filters=["ffi::" + w for w in wanted], exact=True, harness_timeout=ht,
+                                                  target_dir=os.path.join(CACHE, "target-bridge"))
+            if not ok:
+                out["inconclusive"].append("module %s did not build under Kani: %s" % (prep["mod"].name, compile_error_summary(log_) or log_[-1500:]))
+                continue
+            out["coverage"]["tools"] = tools
+            for name in wanted:
+                r = res.get("ffi::" + name)
+                if r is None:
+                    out["inconclusive"].append("%s::%s: no result" % (prep["mod"].name, name))
+                    continue
+                r.name = "%s::%s" % (prep["mod"].name, r.name)
+                r.kani_name = "ffi::" + name
+                crate = prep["dir"]
+
+                def replayer(rr, rdir, crate=crate):
+                    rep = kani_replay(crate, rr.kani_name, keep_dir=rdir)
+                    src = os.path.join(rdir, "%s.playback.txt" % rr.kani_name.replace("::", "__"))
+                    dst = os.path.join(rdir, "%s.playback.txt" % rr.name.replace("::", "__"))
+                    if os.path.exists(src):
+                        os.replace(src, dst)
+                    rep["path"] = dst
+                    return rep
+                r.replayer = replayer
+                out["results"].append(r)
+    out["coverage"]["programs"] = len(programs)
+    out["coverage"]["modules"] = programs
+    out["coverage"]["disagreements_checked"] = len(out["results"]) + n_static
+    out["coverage"]["front_end_validation"] = "%d declarations of the checked-in Dart/Kotlin outputs parsed, %d unrecognised" % (ncorpus, len(probs))
+    out["coverage"]["extra_assumptions"] = [
+        "E3(Dart/Kotlin): native declarations are read by /verif/lib/dartfront.py and kotlinfront.py (trusted, validated on every run against the repository's checked-in outputs); "
+        "struct layout is derived by rustc from the declared member order and types (#[repr(C)] mirror), i.e. dart:ffi / JNA are trusted to implement the C layout rules for what is declared",
+        "each module is first fitted to the back end's feature profile (methods/types the tool rejects with a lowering error are dropped; listed in coverage.modules)",
+        "Kotlin/JNA: Boolean parameters are treated as C bool (JNA passes a C int holding 0/1); DiplomatByte/DiplomatChar carried in Byte/Int are compared by bits; slice element types are not declared by Kotlin (untyped Pointer) and are taken from the Rust signature",
+        "what Dart/Kotlin do with the declarations (their own marshalling code) is outside",
+    ]
+    return out
+
+
 def run(prop):
     """Engine entry point used by props.run_property."""
+    if prop == "C07":
+        return run_dialects(prop)
     t0 = time.time()
     out = {"results": [], "crate_of": {}, "inconclusive": [], "violations": [], "known": [], "coverage": {}}
     steps = 4 if tier() == "thorough" else 3
